@@ -35,6 +35,7 @@ def run_shard(ctx):
     qmgen.drive_histories(ctx, OWN, qmgen.enqueue_vs_load_history(), ctx.n(800, 12000), nontrivial, salt=14)
     qmgen.drive_histories(ctx, OWN, qmgen.late_wake_history(), ctx.n(400, 6000), nontrivial, salt=15)
     qmgen.drive_histories(ctx, OWN, qmgen.own_write_announced_history(), ctx.n(600, 10000), nontrivial, salt=16)
+    qmgen.drive_histories(ctx, OWN, qmgen.flush_blocked_spawn_history(), ctx.n(500, 8000), nontrivial, salt=17)
 
 
 def replay(case):
